@@ -22,8 +22,14 @@ func VerifyAPREQ(APReq *messages.APReq, s *Settings) (bool, *credentials.Credent
 	}
 
 	// Check for replay
+	// The service is the principal whose key decrypted the ticket: the ticket's own sname is not protected and,
+	// when the keytab principal is overridden, plays no part in the verification.
+	sname := APReq.Ticket.SName
+	if s.KeytabPrincipal() != nil {
+		sname = *s.KeytabPrincipal()
+	}
 	rc := GetReplayCache(s.MaxClockSkew())
-	if rc.IsReplay(APReq.Ticket.SName, APReq.Authenticator) {
+	if rc.IsReplay(sname, APReq.Authenticator) {
 		return false, creds,
 			messages.NewKRBError(APReq.Ticket.SName, APReq.Ticket.Realm, errorcode.KRB_AP_ERR_REPEAT, "replay detected")
 	}
